@@ -519,6 +519,16 @@ def stridx_inclusive_control(ctx):
 PROPERTIES["C08"]["rules"] += [("STRIDX.inclusive", lambda ctx: rule_stridx_inclusive([ctx.lib, ctx.bin])), ("STRIDX.inclusive.control", stridx_inclusive_control)]
 PROPERTIES["C08"]["explanation"] += " (STRIDX.inclusive) Nowhere in the library or the CLI is a string sliced with an inclusive byte range whose end is a run-time offset (such offsets are character START offsets; `..=i` ends inside a multi-byte character and panics)."
 
+from recur import rule_recur  # noqa: E402
+
+RECUR_DISPOSITIONS = {
+    "scc:parser::Parser::call": ("witness", "20000 nested parentheses around `1` (findings/recur_witnesses.py parens): `thread 'main' has overflowed its stack`, SIGABRT"),
+    "scc:ast::Expression::full_span": ("witness", "`1+1+…+1` with 100000 terms (findings/recur_witnesses.py chain): parsed iteratively into a left-deep tree, then Expression::full_span recurses once per term: stack overflow, SIGABRT"),
+}
+
+PROPERTIES["C08"]["rules"] += [("RECUR", lambda ctx: rule_recur(ctx.lib, RECUR_DISPOSITIONS))]
+PROPERTIES["C08"]["explanation"] += " (RECUR) Strongly connected components of the MIR call graph reachable from interpret_with_settings that recurse over the token stream or a syntax/type/unit structure are listed; none has a depth guard. Two have witness inputs (known findings: the process aborts with a stack overflow), the rest are reported as unresolved advisories because an earlier phase overflows first."
+
 NOT_APPLICABLE = {
     "C03": "numerical agreement of conversion factors over 500 units is a statement about run-time values; no structural clause is a necessary condition that is not already covered under C04/C11/C12 (static analysis cannot bound the arithmetic)",
     "C14": "a statement about the decimal rendering of every f64 under every format setting; the code delegates to pretty_dtoa/num_format and no structural clause of Number::pretty_print_with_dtoa_config can be decided without evaluating it",
